@@ -37,6 +37,18 @@ try:
                 if sorted(live) != m.active_shelves():
                     verdict(True, "active_shelves disagrees with the shelves created and not deleted", input="".join(seq),
                             observed=str(m.active_shelves()), expected=str(sorted(live)))
+    # more than nine live shelves: numeric, not textual, order decides the next id
+    d = os.path.join(base, "many"); os.mkdir(d)
+    m = shelf.ShelfManager(None, get_transport(d))
+    handed = []
+    for i in range(23):
+        nid, f = m.new_shelf(); f.write(b"shelf %d" % i); f.close()
+        if nid in handed:
+            verdict(True, "new_shelf handed out the id of a live shelf once more than nine shelves exist", observed=str(nid), input="%d shelves live" % len(handed))
+        handed.append(nid)
+        if m.active_shelves() != sorted(handed) or m.last_shelf() != max(handed):
+            verdict(True, "active_shelves/last_shelf are not in numeric order with %d shelves" % len(handed), observed=str((m.active_shelves(), m.last_shelf())))
+    tried += 23
     # shelve_changes: a failing write leaves the tree alone and the handle closed
     d = os.path.join(base, "t"); os.mkdir(d)
     m = shelf.ShelfManager(None, get_transport(d))
